@@ -129,7 +129,13 @@ impl Request {
         }
 
         if let Some(ip) = &example.ip_address {
-            request.remote_addr = Some(IpAddr::from_str(ip).unwrap());
+            // an invalid address is ignored, as an invalid datetime is
+            match IpAddr::from_str(ip) {
+                Ok(addr) => request.remote_addr = Some(addr),
+                Err(err) => {
+                    log::error!("cannot parse ip address {}: {}", ip, err);
+                }
+            }
         }
 
         if let Some(datetime) = &example.datetime {
